@@ -95,8 +95,9 @@ def run_world(kind, invs_seed, quick, known_k8a, hist_steps=0):
             wrote = bool(db)
             f.update(C.flag_facts(inv, json_mode=True, yes=False))
             f['body_writes'] = wrote
-            if hist_steps and inv.cid == 'deploy':
-                # after a random history "a used root lacks its manifest" is not known by construction
+            if inv.cid == 'deploy' and (hist_steps or not f.get('plan_nonempty')):
+                # "a used root lacks its manifest" depends on the roots the selected profile/target uses and, after a
+                # random history, is not known by construction; it only matters when the plan is empty
                 f['manifest_missing'] = wrote and not f.get('plan_nonempty')
             aterm, acodes = areas_term(db, w)
             cid_obs = a['doc'].get('command_id') if isinstance(a['doc'], dict) else ''
@@ -197,6 +198,8 @@ def run_mcp_world(kind, seed, known_k8a):
                     f = R.probe(inv)
                     wrote = bool(db)
                     f['body_writes'] = wrote
+                    if tool == 'deploy_apply' and not f.get('plan_nonempty'):
+                        f['manifest_missing'] = wrote
                     aterm, acodes = areas_term(db, w)
                     term = cq.cpair(cq.cstr(tool), cq.cbool(dry), C.facts_term(f), cq.copt(refusal, cq.cstr), cq.cbool(wrote), aterm)
                     case['facts'] = {k: bool(f.get(k, False)) for k in C.FACT_ORDER}
